@@ -438,7 +438,8 @@ class Interp(EvalMixin, BuiltinMixin):
                  idx=None, iter_lists=None, after_havoc=None):
         run = self.run
         ordn = self.loop_ordinal(node, fr)
-        lab = lambda w: f"{fr.func.key}@L{node.lineno}:loop{ordn}.{w}"
+        fkey = self.top.key if (self.depth == 0 and self.top is not None) else fr.func.key
+        lab = lambda w: f"{fkey}@L{node.lineno}:loop{ordn}.{w}"
         sfr = Frame(fr.module, fr.cls, fr.func, True, parent=fr)
         sfr.defs = dict(self.top.defs) if self.top else {}
         if self.depth == 0:
